@@ -119,7 +119,8 @@ class TrajArm(Arm):
     budget = {"quick": 1200, "thorough": 12000}
     min_per_shard = 12
     required_labels = ("shared_node_template", "self_connection", "fan_in", "parallel_edges", "sparseness=0",
-                       "sparseness=1", "merged>=4", "same_instance:vec_first:in_place", "same_instance:novec_first")
+                       "sparseness=1", "merged>=4", "same_instance:vec_first:in_place", "same_instance:novec_first",
+                       "delays:some_edges")
 
     def strategy(self, ctx):
         @st.composite
@@ -132,6 +133,11 @@ class TrajArm(Arm):
                    "matrix_sparseness": draw(st.sampled_from([None, None, 0.0, 0.5, 1.0])),
                    "reuse": draw(st.sampled_from([None, None, None, "vec_first", "novec_first"])),
                    "in_place": draw(st.booleans())}
+            if spec["edges"] and draw(st.integers(0, 4)) == 0:
+                # discrete delays of 2..7 steps on a subset of the edges (delayed and undelayed edges may leave one source)
+                from .c09 import add_delays
+                spec, _ = add_delays(draw, spec, cfg["dt"])
+                cfg["steps"] = draw(st.integers(16, 28))
             return {"spec": spec, "cfg": cfg}
         from ..finding_predicates import repair_case
         return case().map(lambda c: repair_case(c, ctx))
@@ -144,6 +150,8 @@ class TrajArm(Arm):
             return res
         spec = case["spec"]
         f = spec_features(spec)
+        if any(e.get("d") is not None for e in spec["edges"]):
+            f.add("delays:some_edges")
         groups = {}
         from ..finding_predicates import _merged_node_key
         for p, _ in spec["nodes"]:
